@@ -129,7 +129,7 @@ func (s *Solver) ensure(t *Term) {
 		case OpConst:
 			// inline
 		case OpVar:
-			s.send(fmt.Sprintf("(declare-const %s %s)", smtSym(n.Name), sortStr(n.W)))
+			s.send(fmt.Sprintf("(declare-const %s %s)", varSym(n), sortStr(n.W)))
 		default:
 			if n.Op == OpApp && !s.declFuns[n.Name] {
 				s.send(s.ctx.Funs[n.Name])
@@ -149,7 +149,7 @@ func (s *Solver) ref(t *Term) string {
 	case OpConst:
 		return constStr(t)
 	case OpVar:
-		return smtSym(t.Name)
+		return varSym(t)
 	case OpApp:
 		if len(t.Args) == 0 {
 			return smtSym(t.Name)
@@ -250,7 +250,7 @@ func (s *Solver) getModel() map[string]*big.Int {
 		var sb strings.Builder
 		sb.WriteString("(get-value (")
 		for _, v := range vars[i:j] {
-			sb.WriteString(smtSym(v.Name))
+			sb.WriteString(varSym(v))
 			sb.WriteByte(' ')
 		}
 		sb.WriteString("))")
@@ -295,7 +295,7 @@ func (s *Solver) readSexp() string {
 func parseValues(txt string, vars []*Term, m map[string]*big.Int) {
 	// format: ((name value) (name value) ...), value: #x.. | #b.. | true | false | (_ bvN w)
 	for _, v := range vars {
-		sym := smtSym(v.Name)
+		sym := varSym(v)
 		idx := strings.Index(txt, "("+sym+" ")
 		if idx < 0 {
 			continue
@@ -338,7 +338,7 @@ func (c *Ctx) Script(conds []*Term, logic string) string {
 		case OpConst:
 			return constStr(t)
 		case OpVar:
-			return smtSym(t.Name)
+			return varSym(t)
 		case OpApp:
 			if len(t.Args) == 0 {
 				return smtSym(t.Name)
@@ -357,7 +357,7 @@ func (c *Ctx) Script(conds []*Term, logic string) string {
 		defined[t.ID] = true
 		switch t.Op {
 		case OpVar:
-			fmt.Fprintf(&sb, "(declare-const %s %s)\n", smtSym(t.Name), sortStr(t.W))
+			fmt.Fprintf(&sb, "(declare-const %s %s)\n", varSym(t), sortStr(t.W))
 		default:
 			if t.Op == OpApp && !funs[t.Name] {
 				sb.WriteString(c.Funs[t.Name] + "\n")
